@@ -70,7 +70,7 @@ class C08(BaseCheck):
   EXHAUSTIVE = {'quick': True, 'thorough': True}
 
   def n_cases(self, tier):
-    return len(PLAN) * (1 if tier == 'quick' else 6)
+    return len(PLAN) * (1 if tier == 'quick' else 40)
 
   def run_case(self, env, rng, idx, tier):
     import gevent
